@@ -8,10 +8,9 @@ Import ListNotations.
    Server.Agreement) sits inside a Lock()..Unlock() section, all uses of one store under ONE mutex, and the three
    users the model speaks about are among them: "rewind, then read to the end" and "prepend" are critical sections. *)
 Definition use_ok (store mutex : string) (u : string * string * string * bool) : bool :=
-  let '(_, st, mu, guarded) := u in
-  if String.eqb st store then guarded && String.eqb mu mutex else true.
+  if String.eqb (snd (fst (fst u))) store then snd u && String.eqb (snd (fst u)) mutex else true.
 Definition has_use (fn store : string) : bool :=
-  existsb (fun u => let '(f, st, _, _) := u in String.eqb f fn && String.eqb st store) cursor_uses.
+  existsb (fun u => String.eqb (fst (fst (fst u))) fn && String.eqb (snd (fst (fst u))) store) cursor_uses.
 Theorem C19_cursor_use_is_serialised :
   forallb (use_ok "MessageBoard" "messageBoardMu") cursor_uses = true /\
   forallb (use_ok "Agreement" "s.agreementMu") cursor_uses = true /\
@@ -26,7 +25,7 @@ Theorem C19_read_is_whole :
     exists s', read_whole capf s = (s', Some (s_data s)) /\ s_data s' = s_data s /\ s_disk s' = s_disk s.
 Proof. exact read_whole_exact. Qed.
 
-(* For EVERY order in which the lock admits any number of posters and readers: each reader gets the text that was
+(* For EVERY order in which the lock lets in any number of posters and readers: each reader gets the text that was
    current at its turn, the final board is all posts newest first on top of the initial text, and once a post has
    been made the file equals the board (it is on disk when the post is acknowledged) *)
 Theorem C19_every_history :
